@@ -167,7 +167,13 @@ func genC16Config(c *core.Ctx) c16Cfg {
 	}
 	if c.Rng.Intn(4) == 0 {
 		cfg.cyclic = true
-		switch c.Rng.Intn(4) {
+		switch c.Rng.Intn(7) {
+		case 4: // a value on the cycle quotes the cycle more than once
+			t["k1"] = "${k1}${k1}"
+		case 5:
+			t["k1"], t["k2"] = "${k2}-${k2}", "${k1}"
+		case 6:
+			t["k1"], t["k2"], t["k3"] = "${k2}${k3}", "${k1}", "x${k1}"
 		case 0:
 			t["k1"] = "${k1}"
 		case 1:
@@ -209,6 +215,10 @@ func genC16Text(c *core.Ctx, depth int) string {
 }
 
 func (p c16) Run(c *core.Ctx) {
+	if c.Index%10 == 9 {
+		p.changing(c)
+		return
+	}
 	cfg := genC16Config(c)
 	b, _ := yaml.Marshal(cfg.tree)
 	doc := string(b)
@@ -368,4 +378,78 @@ func (p c16) Run(c *core.Ctx) {
 			c.Sample(detail(map[string]any{"bound": fmt.Sprint(got)}))
 		}
 	}
+}
+
+// changing: the configuration changes (Configure.Set from a component's Init) between the resolution
+// of two tags that quote the same key; every resolution must see the value configured at that time.
+func (p c16) changing(c *core.Ctx) {
+	g := world.NewG(c.Rng)
+	first := g.AddNode(0, "a-first")   // T00 has Init and AfterPropertiesSet; sorts before the second
+	second := g.AddNode(1, "z-second") // created afterwards by the name-sorted refresh
+	key := []string{"feature.mode", "k1", "srv.region"}[c.Rng.Intn(3)]
+	initial := []any{nil, "local", 7}[c.Rng.Intn(3)]
+	updated := []string{"remote", "eu", "v2"}[c.Rng.Intn(3)]
+	tag := []string{"${" + key + ":dflt}", "x-${" + key + ":dflt}-y", "${" + key + "}"}[c.Rng.Intn(3)]
+	g.Sc.Nodes[first].Cfg = map[string]world.TagSpec{"CfgS": {Tag: "value", Val: tag + ",required=false"}}
+	g.Sc.Nodes[second].Cfg = map[string]world.TagSpec{"CfgS": {Tag: "value", Val: tag + ",required=false"}}
+	tree := map[string]any{"other": "x"}
+	if initial != nil {
+		cur := tree
+		parts := strings.Split(key, ".")
+		for _, pp := range parts[:len(parts)-1] {
+			m := map[string]any{}
+			cur[pp] = m
+			cur = m
+		}
+		cur[parts[len(parts)-1]] = initial
+	}
+	b, _ := yaml.Marshal(tree)
+	g.Sc.Config = string(b)
+	var run *world.Run
+	done := false
+	opt := world.Options{NoTracer: true, BinderBudget: 20000, Hook: func(kind string, who world.Node) {
+		if kind == "init" && who.DisplayName() == "a-first" && !done {
+			done = true
+			run.App.Set(key, updated)
+		}
+	}}
+	run = world.Build(g.Sc, opt)
+	run.Go()
+	c.Count("starts", 1)
+	c.Count("config_change_cases", 1)
+	detail := map[string]any{"tag": tag, "key": key, "initial": fmt.Sprint(initial), "set_in_Init_of_first": updated, "config": g.Sc.Config, "outcome": core.Short(run.OutcomeDetail(), 300)}
+	if run.Outcome() != "ok" {
+		c.Fail("", "start with a configuration change between two resolutions did not succeed: "+core.Short(run.OutcomeDetail(), 300), detail)
+		return
+	}
+	want1, _, _, _ := modelResolve(tag, tree)
+	tree2 := map[string]any{}
+	for k, v := range tree {
+		tree2[k] = v
+	}
+	cur := tree2
+	parts := strings.Split(key, ".")
+	for _, pp := range parts[:len(parts)-1] {
+		m := map[string]any{}
+		if old, ok := cur[pp].(map[string]any); ok {
+			for k, v := range old {
+				m[k] = v
+			}
+		}
+		cur[pp] = m
+		cur = m
+	}
+	cur[parts[len(parts)-1]] = updated
+	want2, _, _, _ := modelResolve(tag, tree2)
+	got1 := run.Nodes[first].Slot().CfgS
+	got2 := run.Nodes[second].Slot().CfgS
+	if got1 != want1 {
+		c.Fail("", fmt.Sprintf("first component: tag %q resolved to %q, expected %q", tag, got1, want1), detail)
+		return
+	}
+	if got2 != want2 {
+		c.Fail("", fmt.Sprintf("second component (created after the key was set to %q): tag %q resolved to %q, expected %q", updated, tag, got2, want2), detail)
+		return
+	}
+	c.Nontrivial("changing|" + tag + "|" + fmt.Sprint(initial) + updated)
 }
